@@ -4,7 +4,7 @@
 cd /verif
 declare -A MAP=( [S01_C01]="C02" [S02_C02]="C09" [S03_C03]="C16 C03" [S04_C04]="C09 C04" [S05_C08]="C08" [S06_C09]="C09"
  [S07_C16]="C03" [S08_C19]="C19" [S09_C01]="C01" [S10_C03]="C03" [S11_C05]="C05" [S12_C06]="C06" [S13_C11]="C11"
- [S14_C12]="C12" [S15_C13]="C13" [S16_C14]="C14" [S17_C18]="C18" [S18_C20]="C20" [S19_C02]="C02" [S20_C04]="C04" [S21_C07]="C07" [S22_C09]="C09" [S23_C10]="C10" [S24_C15]="C15" [S25_C16]="C16" [S26_C19]="C19" [S27_C17]="C18 C17" [S28_C10]="C10" [S29_C11]="C11" [S30_C20]="C20" [S31_C05]="C05" [S32_C06]="C06" [S33_C13]="C13" [S34_C18]="C18" )
+ [S14_C12]="C12" [S15_C13]="C13" [S16_C14]="C14" [S17_C18]="C18" [S18_C20]="C20" [S19_C02]="C02" [S20_C04]="C04" [S21_C07]="C07" [S22_C09]="C09" [S23_C10]="C10" [S24_C15]="C15" [S25_C16]="C16" [S26_C19]="C19" [S27_C17]="C18 C17" [S28_C10]="C10" [S29_C11]="C11" [S30_C20]="C20" [S31_C05]="C05" [S32_C06]="C06" [S33_C13]="C13" [S34_C18]="C18" [S35_C01]="C01" [S36_C03]="C03" [S37_C08]="C08" [S38_C09]="C09" [S39_C12]="C12" [S40_C14]="C14" [S41_C16]="C16" [S42_C19]="C19" )
 seeds="$@"; [ -z "$seeds" ] && seeds=$(ls seeded | sort)
 for s in $seeds; do
   p=seeded/$s/patch.diff
